@@ -391,6 +391,14 @@ class Inliner(object):
             if isinstance(s, ast.Assign) and s.value is call and len(s.targets) == 1 and isinstance(s.targets[0], ast.Name):
                 var = s.targets[0].id
                 conv, _ = _retify(body, var, s)
+                # `T = X` as the last statement, X a helper local: let the helper write T directly
+                if conv and isinstance(conv[-1], ast.Assign) and isinstance(conv[-1].value, ast.Name) and \
+                        norm(conv[-1].targets[0]) == var and conv[-1].value.id != var and \
+                        conv[-1].value.id not in caller_names and \
+                        not any(isinstance(x, ast.Name) and x.id == var for st0 in conv[:-1] for x in ast.walk(st0)):
+                    xname = conv[-1].value.id
+                    ren = _Subst({}, {xname: var})
+                    conv = [ren.visit(st0) for st0 in conv[:-1]]
                 self.inlined_fns.add(g.fq)
                 return pre + conv
             var = '%s_result' % g.name.strip('_')
